@@ -52,6 +52,7 @@ def c14(ctx):
     # the PIN status flags multiply the states: a bounded number of walks per graph is replayed
     for g in graphs:
         g["maxwalks"] = 1500 if quick else 8000
+        g["pairs"] = 150 if quick else 5000
     if not quick:
         c4 = C(MaxTok="3", Acts='{"init", "restart", "util", "sess", "obj"}', MaxH="1", MaxObj="2", Labs='{"L1"}',
                PinSyms='{"U1", "B"}', NewPins='{"U1"}')
@@ -95,6 +96,7 @@ def c04(ctx):
     ]
     for g in graphs:
         g["maxwalks"] = 1500 if quick else 8000
+        g["pairs"] = 150 if quick else 5000
     if not quick:
         graphs.append(dict(name="c04-hist-db", constants=c1, trace_constants=T(c1, obs),
                            driver_args=[lib, util, "db", allpins], maxwalks=8000))
